@@ -70,4 +70,5 @@ class appendix(Command):
 
     def invoke(self, tex):
         self.ownerDocument.context.counters['chapter'].setcounter(0)
+        self.ownerDocument.context.counters['chapter'].resetcounters()
         self.ownerDocument.context['thechapter'] = type(self).thechapter
